@@ -442,38 +442,33 @@ Proof.
   - destruct (Nat.eqb k n) eqn:E; [apply Nat.eqb_eq in E; subst; rewrite IH, Fk; reflexivity | exact IH].
 Qed.
 
-(* all or nothing: after an accepted atomic push the remote heads are exactly the local heads (plus, without
-   --prune, the remote heads absent locally); every update is a fast-forward; a refused push changes nothing
-   (the result is None and the caller keeps the old remote). *)
-Theorem push_all_atomic_spec s remote local prune remote' :
+(* all or nothing: after an accepted atomic push the remote heads are the local heads plus the remote heads
+   that are absent locally and were not explicitly deleted; every update is a fast-forward; a refused push
+   changes nothing (the result is None and the caller keeps the old remote). *)
+Theorem push_all_atomic_spec s remote local deleted remote' :
   wf_store s -> keys_nodup local ->
-  push_all_atomic s remote local prune = Some remote' ->
+  push_all_atomic s remote local deleted = Some remote' ->
   (forall n x, lookup local n = Some x -> lookup remote' n = Some x) /\
-  (forall n, lookup local n = None -> lookup remote' n = if prune then None else lookup remote n) /\
+  (forall n, lookup local n = None -> lookup remote' n = if mem n deleted then None else lookup remote n) /\
   (forall n old x, lookup remote n = Some old -> lookup local n = Some x -> Anc s old x).
 Proof.
   intros W ND H. unfold push_all_atomic in H.
   destruct (forallb (fun kv => ref_acceptable s remote (fst kv) (snd kv)) local) eqn:Acc; [|discriminate H].
-  injection H as <-. split; [|split].
+  destruct (forallb (fun n => match lookup remote n with Some _ => true | None => false end) deleted); [|discriminate H].
+  cbn [andb] in H. injection H as <-. split; [|split].
   - intros n x L. rewrite fold_update_lookup by exact ND. rewrite L. reflexivity.
-  - intros n L. rewrite fold_update_lookup by exact ND. rewrite L. destruct prune; [|reflexivity].
-    rewrite (lookup_filter_keep (fun k => match lookup local k with Some _ => true | None => false end)).
-    rewrite L. reflexivity.
+  - intros n L. rewrite fold_update_lookup by exact ND. rewrite L.
+    rewrite (lookup_filter_keep (fun k => negb (mem k deleted))). destruct (mem n deleted); reflexivity.
   - intros n old x Lr Ll. rewrite forallb_forall in Acc. specialize (Acc (n, x) (lookup_In _ _ _ Ll)).
     cbn in Acc. exact (ref_acceptable_ff _ _ _ _ _ W Acc Lr).
 Qed.
 
-(* non-vacuity: a three-branch cascade, a feature branch with one commit, merged down the cascade *)
-Example flow_example :
-  let s0 := [mkCommit [] false; mkCommit [0] false; mkCommit [1] false; mkCommit [2] false;   (* dev1 dev2 dev3 tips 1 2 3 *)
-             mkCommit [1] false;                                                              (* feature on dev1 *)
-             mkCommit [2; 4] true; mkCommit [3; 5] true] in                                   (* w/2, w/3 *)
-  let c0 := mkClone s0 [(1, 1); (2, 2); (3, 3); (10, 4); (12, 5); (13, 6)] in
-  let order := [(1, 2); (2, 3); (1, 3)] in
-  incl_b c0 order = true /\
-  match merge_integration [Octopus; Consecutive] c0 [(1, 10); (2, 12); (3, 13)] with
-  | Some c1 => incl_b c1 order = true /\ lookup (refs c1) 1 = Some 4 /\ lookup (refs c1) 2 = Some 5 /\
-               lookup (refs c1) 3 = Some 8 /\ length (st c1) = 9
-  | None => False
-  end.
-Proof. vm_compute. repeat split. Qed.
+(* a branch the clone does not know (created by somebody else after the clone) survives every push *)
+Corollary push_all_keeps_unknown s remote local deleted remote' n :
+  wf_store s -> keys_nodup local ->
+  push_all_atomic s remote local deleted = Some remote' ->
+  lookup local n = None -> ~ In n deleted -> lookup remote' n = lookup remote n.
+Proof.
+  intros W ND H L Hn. destruct (push_all_atomic_spec _ _ _ _ _ W ND H) as (_ & A & _).
+  rewrite (A n L). destruct (mem n deleted) eqn:M; [apply mem_true in M; contradiction | reflexivity].
+Qed.
